@@ -768,3 +768,158 @@ def check_L34(ctx, rep, modules):
                          'the pairs (x_old, y_new) that appear when the class of a known element grows are new and must be shown', loc=cr.loc(elem_level))
     if n_filters < 4:
         raise Broken('L34: only %d filter predicates found in the eqrel read views (anchor lost?)' % n_filters)
+
+
+# ------------------------------------------------------------------ L36
+
+def check_L36(ctx, rep, pairs):
+    """optional reverse maps exist wherever a view unwraps them: the ternary wrappers keep `reverse_map1` / `reverse_map2` only when a
+    const generic flag says so, and the flags are computed by the provider macro from the index set of the program
+    (`inds_contain!($indices, [1]) || inds_contain!($indices, [1, 2])`). The read views `..Ind<cols>` unwrap the maps. For every view
+    that unwraps `reverse_mapN`, the N-th flag expression of the macro mentions that view's column set - otherwise a program that
+    uses this index (and no other one that switches the map on) panics in `unwrap()` at run time."""
+    import re
+    cr = ctx.lib('ascent_byods_rels')
+    n = 0
+    for macro_name, module in pairs:
+        mac = [m for m in cr.macros if m['n'] == macro_name]
+        if not mac:
+            raise Broken('L36: macro %s not found' % macro_name)
+        body = mac[0]['body']
+        flags = re.findall(r'\{\s*\$crate::inds_contain!.*?\}', body, re.S)
+        if len(flags) < 2:
+            raise Broken('L36: %s: fewer than two flag expressions over inds_contain! found' % macro_name)
+        flag_sets = []
+        for fl in flags[:2]:
+            flag_sets.append({tuple(int(x) for x in re.findall(r'\d+', g)) for g in re.findall(r'inds_contain!\(\s*\$indices\s*,\s*\[([^\]]*)\]', fl)})
+        # which view unwraps which map
+        need = {1: set(), 2: set()}
+        for path, b in cr.bodies.items():
+            if not _in_scope(path, module):
+                continue
+            st = impl_self_ty(b) if b.get('impl_of') else ''
+            m = re.search(r'Ind((?:\d+_)*\d+)\b', st.split('<')[0]) if st else None
+            if not m or 'Write' in st.split('<')[0]:
+                continue
+            cols = tuple(int(x) for x in m.group(1).split('_'))
+            for x, parents in walk(b['tree']):
+                if x.get('k') == 'field' and x['n'] in ('reverse_map1', 'reverse_map2'):
+                    par_ms = [p_.get('m') for p_ in parents[-4:] if p_.get('k') == 'mcall']
+                    # the access is followed by an unwrap on the Option (as_ref().unwrap() / as_mut().unwrap())
+                    up = [p_ for p_ in reversed(parents) if p_.get('k') == 'mcall'][:3]
+                    if any(p_['m'] == 'unwrap' for p_ in up):
+                        need[int(x['n'][-1])].add(cols)
+                        rep.functions.add(path)
+        if not need[1] and not need[2]:
+            raise Broken('L36: no view of %s unwraps a reverse map (anchor lost?)' % module)
+        for k in (1, 2):
+            for cols in sorted(need[k]):
+                n += 1
+                ok = cols in flag_sets[k - 1]
+                rep.inst('L36', '%s: the views over columns %s unwrap reverse_map%d; flag %d of the macro mentions %s: %s' % (
+                    macro_name, list(cols), k, k, sorted(map(list, flag_sets[k - 1])), ok))
+                if not ok:
+                    rep.viol('L36', macro_name, 'reverse-map-flag:%d:%s' % (k, '_'.join(map(str, cols))),
+                             'the read view over the columns %s unwraps `reverse_map%d`, but the provider macro switches that map on only for the '
+                             'index sets %s: a program that reads the relation through %s (and through no index that switches the map on) panics in '
+                             '`Option::unwrap()` at run time' % (list(cols), k, sorted(map(list, flag_sets[k - 1])), list(cols)))
+    return n
+
+
+# ------------------------------------------------------------------ L37 / L38
+
+def check_L37(ctx, rep, modules):
+    """column order: where a ternary view destructures its key `(x0, x1, x2)` (or `(x1, x2)`) and hands two of the columns to the
+    binary relation behind it (`contains(a, b)`, `insert(a, b)`, `add(a, b)`, `index_insert((a, b), ..)`), they are handed over in
+    column order. The transitive relation is not symmetric: `contains(x2, x1)` asks about the converse pair."""
+    cr = ctx.lib('ascent_byods_rels')
+    n = 0
+    for path, b in sorted(cr.bodies.items()):
+        if not any(_in_scope(path, m) for m in modules) or b['name'].startswith('test'):
+            continue
+        pos = {}        # local id -> position in a destructured tuple
+        def note_pat(p):
+            if p.get('k') == 'tup':
+                for i, q in enumerate(p['ps']):
+                    if q.get('k') == 'bind':
+                        pos[q['id']] = (id(p), i)
+                    elif q.get('k') in ('ref', 'deref') and q.get('p', {}).get('k') == 'bind':
+                        pos[q['p']['id']] = (id(p), i)
+            elif p.get('k') in ('ref', 'deref'):
+                note_pat(p['p'])
+        for prm in b['params']:
+            note_pat(prm)
+        for x, _ in walk(b['tree']):
+            if x.get('k') == 'let' and 'p' in x:
+                note_pat(x['p'])
+            if x.get('k') == 'closure':
+                for q in x.get('ps', []):
+                    note_pat(q)
+            if x.get('k') == 'match':
+                for a in x['arms']:
+                    note_pat(a['p'])
+        if len(pos) < 2:
+            continue
+        for x, _ in walk(b['tree']):
+            if x.get('k') != 'mcall' or x['m'] not in ('contains', 'insert', 'add', 'contains_key', 'insert_if_not_present', 'index_insert', 'added_contains'):
+                continue
+            args = list(x['a'])
+            if len(args) >= 1 and strip(args[0]).get('k') == 'tup':
+                args = list(strip(args[0])['es'])
+            if len(args) < 2:
+                continue
+            ids = []
+            for a in args[:2]:
+                r = root_local_(a)
+                ids.append(pos.get(r) if r is not None else None)
+            if None in ids or ids[0][0] != ids[1][0]:
+                continue            # columns of one and the same destructured key only
+            ids = [ids[0][1], ids[1][1]]
+            n += 1
+            ok = ids[0] < ids[1]
+            rep.inst('L37', '%s: %s(col %d, col %d): in column order: %s' % (path, x['m'], ids[0], ids[1], ok))
+            rep.functions.add(path)
+            if not ok:
+                rep.viol('L37', path, 'columns-swapped:' + x['m'],
+                         'two columns of a destructured key are handed to `%s` in reverse column order (column %d before column %d): for a relation '
+                         'that is not symmetric this asks about / stores the converse pair' % (x['m'], ids[0], ids[1]), loc=cr.loc(x))
+    if n < 3:
+        raise Broken('L37: only %d two-column calls over destructured keys found (3 counted on the tree; anchor lost?)' % n)
+
+
+def root_local_(a):
+    a = strip(a)
+    while True:
+        a = strip(a)
+        k = a.get('k')
+        if k in ('addr', 'cast'):
+            a = a['e']; continue
+        if k == 'unary' and a.get('op') == 'deref':
+            a = a['e']; continue
+        if k == 'mcall' and a['m'] in ('clone', 'borrow', 'to_owned'):
+            a = a['r']; continue
+        if k == 'path' and a.get('res') == 'local':
+            return a['id']
+        return None
+
+
+def check_L38(ctx, rep, modules):
+    """the keys of a two-column index are ordered pairs: `iter_all` of such a view enumerates a product of the two column domains. An
+    unordered-pairs adaptor (`tuple_combinations`, `combinations`, `tuple_windows`) yields neither (x, x) nor both of (x, y), (y, x)."""
+    cr = ctx.lib('ascent_byods_rels')
+    n = 0
+    BAD = ('Itertools::tuple_combinations', 'Itertools::combinations', 'Itertools::tuple_windows', 'Itertools::combinations_with_replacement',
+           'Itertools::array_combinations')
+    for path, b in sorted(cr.bodies.items()):
+        if not any(_in_scope(path, m) for m in modules) or 'iter_all' not in b['name']:
+            continue
+        n += 1
+        bad = [cname(callee(x)) for x, _ in walk(b['tree']) if x.get('k') in ('mcall', 'call') and callee(x) and cname(callee(x)).endswith(BAD)]
+        rep.inst('L38', '%s: unordered-pairs adaptors: %s' % (path, [x.split('::')[-1] for x in bad] or 'none'))
+        rep.functions.add(path)
+        for x in bad:
+            rep.viol('L38', path, 'unordered-pairs:' + x.split('::')[-1],
+                     'the enumeration of an index whose keys are ordered pairs goes through `%s`: (x, x) and one of (x, y) / (y, x) are never '
+                     'enumerated' % x.split('::')[-1])
+    if n < 5:
+        raise Broken('L38: only %d iter_all functions found in %s' % (n, modules))
